@@ -5,7 +5,7 @@ from jugverif import core, execchecks as X, execengine as E
 
 LEVEL = 'proof'
 THEOREMS = ['Jug.C01.exec_sound', 'Jug.C01.loads_are_reference', 'Jug.C01.load_enabled', 'Jug.C01.rerun_noop', 'Jug.C01.exec_complete_partial',
-            'Jug.C01.started_tasks_have_reference_value', 'Jug.C01.exec_complete', 'Jug.C01.exec_complete_reference', 'Jug.WorkerBridge.worker_scans_all', 'Jug.LoopBridge.loop_scans_all', 'Jug.LoopBridge.loop_fuel_sufficient', 'Jug.LoopBridge.loop_conforms']
+            'Jug.C01.started_tasks_have_reference_value', 'Jug.C01.exec_complete', 'Jug.C01.exec_complete_reference', 'Jug.WorkerBridge.worker_scans_all', 'Jug.LoopBridge.loop_scans_all', 'Jug.LoopBridge.loop_fuel_sufficient', 'Jug.LoopBridge.loop_conforms', 'Jug.LoopBridge.scanRun_of_workers', 'Jug.LoopBridge.exec_complete_of_loop_workers']
 
 
 def extract():
